@@ -88,7 +88,7 @@ structure AnalyseOk (m : Nat) (W : World) (fuel : Nat) (refs : Refs) (stack : Li
   hbody : hashLines m fn.lines = .ok bodySig
   hdeps : lookupRefs st.refs (dedupStr st.loads) = .ok deps
   hret : buildReturnSig (some bodySig) argCtx deps (st.inters.map FIS.retSig) fn.exts extVars = .ok (some ret)
-  hfis : fis = FIS.mk fn.name ret fn.storePath st.inters (dedupStr st.loads)
+  hfis : fis = FIS.mk fn.name ret fn.storePath st.inters deps
   hrefs : refs' = (match fn.storePath with | some p => aset st.refs p ret | none => st.refs)
 
 theorem analyse_inv {m : Nat} {W : World} {fuel : Nat} {refs : Refs} {stack : List String} {fn : Fn} {argCtx : ArgCtx}
